@@ -210,6 +210,7 @@ def gen_cases(rng, nlists, njunk):
         else:
             args = [junk_value(rng), junk_value(rng)]
         cases.append(Case(name, mode, args, "junk"))
+    cases = corner_cases() + cases
     # de-duplicate, keep order
     seen = set()
     out = []
@@ -218,6 +219,38 @@ def gen_cases(rng, nlists, njunk):
         if k not in seen:
             seen.add(k)
             out.append(cs)
+    return out
+
+
+def corner_cases():
+    """systematic shapes, every run: empty / singleton / wrong-typed / nested, both modes"""
+    out = []
+    one, two, nanv = N(1.0), N(2.0), N(NAN)
+    shapes = [[], [L()], [L(S("a"))], [S("a")], [one, S("a")], [L(one, S("a"))], [L(S("a"), one)], [L(L(one))],
+              [L(L())], [one], [nanv], [L(nanv)], [L(nanv, one)], [nanv, one], [one, nanv, two], [L(one), two],
+              [L(), one], [NULL], [B(True)], [L(B(True))], [R()], [V("builtin", "sum")], [L(N(-0.0))], [N(-0.0)],
+              [L(N(-0.0), N(0.0))], [L(N(0.0), N(-0.0))], [N(INF), N(-INF)], [L(N(INF), N(-INF))]]
+    for a in AGGS6:
+        for mode in ("raw", "checked"):
+            for sh in shapes:
+                out.append(Case(a, mode, sh, "junk"))
+    pshapes = [[], [L()], [L(), N(50.0)], [L(), N(0.0)], [L(), N(100.0)], [L(), N(101.0)], [L(), N(NAN)],
+               [L(one), N(50.0)], [L(nanv), N(50.0)], [L(nanv, one), N(50.0)], [L(one, nanv), N(0.0)],
+               [L(one, two), N(NAN)], [L(one, two), N(-0.0)], [L(one, two), N(100.0)], [L(one, two), N(50.0)],
+               [L(one, two), N(49.99999999999999)], [L(one, S("a")), N(50.0)], [L(one), S("a")], [one, N(50.0)],
+               [N(50.0), L(one)], [L(one, two), N(50.0), N(1.0)], [L(nanv, one), N(101.0)], [L(S("a")), N(101.0)],
+               [L(one, two), N(-1.0)], [L(one, two), N(100.00000000000001)]]
+    for mode in ("raw", "checked"):
+        for sh in pshapes:
+            out.append(Case("percentile", mode, sh, "junk"))
+        for a in ("any", "all"):
+            for sh in [[], [L()], [L(B(True))], [L(B(False))], [L(B(True), B(False))], [L(B(True), one)], [L(one)],
+                       [B(True)], [L(NULL)], [L(B(False), B(True))], [L(B(True), B(True))], [L(), L()]]:
+                out.append(Case(a, mode, sh, "junk"))
+        for sh in [[], [L()], [L(), L()], [L(one), L(two)], [L(one, two), L(two)], [L(one), L(S("a"))],
+                   [L(S("a")), L(one)], [L(S("a")), L(S("b"))], [one, two], [L(one), two], [L(one, two), L(two, one)],
+                   [L(N(-0.0)), L(one)], [L(N(INF)), L(N(0.0))], [L(one), L(two), L(one)]]:
+            out.append(Case("dot", mode, sh, "junk"))
     return out
 
 
@@ -468,7 +501,7 @@ def law_search(h, rng, nlists, res):
         checked += len(r1) + len(r2) + len(p1) + len(p2)
         if fails:
             nfail += 1
-            if nfail <= 5:
+            if nfail <= 3:
                 res.violation("aggregate law fails on the implementation: " + fails[0],
                               {"kind": "law", "list_bits": ["%016x" % f2bits(x) for x in xs],
                                "list": [repr(x) for x in xs],
@@ -585,6 +618,12 @@ def main(argv):
         res.tie_broken(e.what, e.detail)
         model = [None] * len(cases)
     mism = []
+    npanic = [0]
+
+    def panic_violation(what, replay):
+        npanic[0] += 1
+        if npanic[0] <= 3:
+            res.violation(what, replay)
     hist = {}
     per_agg = {}
     lens = {}
@@ -614,7 +653,7 @@ def main(argv):
                     known_hits[kid] += 1
                     validated += 1
                 else:
-                    res.violation("the implementation panics (C01 class) on an arity-respecting aggregate call",
+                    panic_violation("the implementation panics (C01 class) on an arity-respecting aggregate call",
                                   {"kind": "panic", "line": cs.line(), "call": "%s(%s)" % (cs.name, ", ".join(a.src() for a in cs.args)),
                                    "observed": r, "finding_class": kid})
             elif r == fixed:
@@ -622,12 +661,14 @@ def main(argv):
             else:
                 mism.append((cs, m, r))
         else:
-            if r == cur:
+            if r == cur or (fixed is not None and r == fixed):
+                # (second disjunct: a raw call that violates the arity and reaches the sort / the empty
+                # list -- the repaired code no longer aborts there either)
                 validated += 1
             else:
                 mism.append((cs, m, r))
                 if r == "PANIC" and cs.arity_ok():
-                    res.violation("the implementation panics (C01 class) on an arity-respecting aggregate call",
+                    panic_violation("the implementation panics (C01 class) on an arity-respecting aggregate call",
                                   {"kind": "panic", "line": cs.line(),
                                    "call": "%s(%s)" % (cs.name, ", ".join(a.src() for a in cs.args)), "observed": r})
     if mism:
@@ -670,7 +711,7 @@ def main(argv):
             else:
                 emism.append((prog, m, r))
                 if r == "PANIC":
-                    res.violation("the implementation panics (C01 class) on an aggregate call",
+                    panic_violation("the implementation panics (C01 class) on an aggregate call",
                                   {"kind": "eval", "program": prog, "observed": r})
         elif r == m:
             validated += 1
@@ -678,8 +719,9 @@ def main(argv):
                 nontrivial.add(prog)
         else:
             emism.append((prog, m, r))
-            res.violation("aggregate call through the evaluator differs from the verified definition",
-                          {"kind": "eval", "program": prog, "observed": r, "expected": m})
+            if len(emism) <= 3:
+                res.violation("aggregate call through the evaluator differs from the verified definition",
+                              {"kind": "eval", "program": prog, "observed": r, "expected": m})
     if emism:
         prog, m, r = emism[0]
         res.tie_broken("correspondence C15/EVAL: model and implementation disagree on %d of %d programs"
